@@ -77,7 +77,7 @@ func TestC16_SegArbitrary(t *testing.T) {
 			}
 		}
 	})
-	ev.Rapid("seg-arbitrary", ev.Pick(15000, 200000))
+	ev.Rapid("seg-arbitrary", ev.Pick(15000, 150000))
 	rapid.Check(t, func(rt *rapid.T) {
 		b, muts := drawFuzzBytes(rt)
 		if len(b) == 0 {
